@@ -60,6 +60,30 @@ func (c *ctx) take(n int) ([]refchain.OutPoint, []refchain.Coin) {
 	return ops, cs
 }
 
+// takeRound removes and returns the spendable coin whose amount has the most trailing decimal zeros (at least three;
+// among equals the larger amount)
+func (c *ctx) takeRound() (refchain.OutPoint, refchain.Coin, bool) {
+	best, bz := -1, 2
+	for j, op := range c.avail {
+		v := c.view[op].Value
+		z := 0
+		for v > 0 && v%10 == 0 {
+			v /= 10
+			z++
+		}
+		if v > 0 && (z > bz || (z == bz && best >= 0 && c.view[op].Value > c.view[c.avail[best]].Value)) {
+			best, bz = j, z
+		}
+	}
+	if best < 0 {
+		return refchain.OutPoint{}, refchain.Coin{}, false
+	}
+	op := c.avail[best]
+	c.avail[best] = c.avail[len(c.avail)-1]
+	c.avail = c.avail[:len(c.avail)-1]
+	return op, c.view[op], true
+}
+
 func sum(cs []refchain.Coin) (v uint64) {
 	for _, c := range cs {
 		v += c.Value
@@ -490,6 +514,47 @@ func init() {
 		if t == nil {
 			return nil
 		}
+		return c.blockWith([]*refchain.Tx{t}, 0, chainsim.BlockSpec{})
+	})
+	// coins with round amounts (d x 10^e satoshi, the larger e the better; 100 BTC and more when there is one): the
+	// compressed UTXO codec stores them as mantissa and exponent, and what comes back is what the inputs are worth
+	reg("value/outputs-exceed-round-input-by-1", "C04", []string{"bad-txns-in-belowout"}, func(c *ctx) *refchain.Block {
+		op, co, ok := c.takeRound()
+		if !ok {
+			return nil
+		}
+		t := c.g.Spend([]refchain.OutPoint{op}, []refchain.Coin{co}, []refchain.TxOut{c.g.OutTrue(co.Value + 1)}, 1, 0, nil, -1)
+		return c.blockWith([]*refchain.Tx{t}, 0, chainsim.BlockSpec{})
+	})
+	reg("valid/round-input-spent-to-the-last-satoshi", "C04", valid, func(c *ctx) *refchain.Block {
+		op, co, ok := c.takeRound()
+		if !ok {
+			return nil
+		}
+		t := c.g.Spend([]refchain.OutPoint{op}, []refchain.Coin{co}, []refchain.TxOut{c.g.OutTrue(co.Value)}, 1, 0, nil, -1)
+		return c.blockWith([]*refchain.Tx{t}, 0, chainsim.BlockSpec{})
+	})
+	reg("valid/merge-into-multiples-of-10-btc", "C04", valid, func(c *ctx) *refchain.Block {
+		// three or four coins (coinbases mostly) into k x 10 BTC (k >= 10 when the coins allow it) plus change
+		n := 3 + c.r.Intn(2)
+		ops, cs := c.take(n)
+		if ops == nil {
+			return nil
+		}
+		in := sum(cs)
+		unit := uint64(1000000000)
+		for unit > 1 && in < 10*unit {
+			unit /= 10
+		}
+		big := in - in%unit
+		if c.r.Bool() && big > 10*unit {
+			big -= uint64(c.r.Intn(int(big/unit)-10+1)) * unit // k anywhere in 10..K
+		}
+		outs := []refchain.TxOut{c.g.OutTrue(big)}
+		if in-big > 0 {
+			outs = append(outs, c.g.OutTrue(in-big))
+		}
+		t := c.g.Spend(ops, cs, outs, 1, 0, nil, -1)
 		return c.blockWith([]*refchain.Tx{t}, 0, chainsim.BlockSpec{})
 	})
 	reg("value/fee-underflow-hidden-by-other-tx", "C04", []string{"bad-txns-in-belowout"}, func(c *ctx) *refchain.Block {
